@@ -18,10 +18,10 @@ PROPS = {
     "C01": {"families": ["conform", "witness", "slowop", "regress", "core", "prio", "faults", "groups", "stop"],
             "nontrivial_rule": "at least two successful record mutations by different writers or a takeover/delete",
             "mc": ["MC_Core2", "MC_Prio"]},
-    "C02": {"families": ["conform", "witness", "core", "stop", "health"],
+    "C02": {"families": ["conform", "witness", "regress", "core", "stop", "health"],
             "nontrivial_rule": "two or more instances started and at least one claim edge",
             "mc": ["MC_Core2"]},
-    "C03": {"families": ["slowop", "faults", "validate"],
+    "C03": {"families": ["slowop", "regress", "faults", "validate"],
             "nontrivial_rule": "a leader loses its record or has a failed/timed-out refresh",
             "mc": ["MC_Faults", "MC_Outside"]},
     "C04": {"families": ["validate"],
@@ -123,7 +123,11 @@ def model_check(pid, tier, tlc, work, spec, log):
             t0 = time.time()
             mod = open(os.path.join(spec, cfg)).readline().strip().lstrip("\\* ").strip()
             module = mod if mod.endswith(".tla") else "MC.tla"
-            out, st = tlc(module, cfg, workers="auto", timeout=3000 if tier != "quick" else 900, heap="-Xmx24g")
+            # time-boxed breadth-first search: a configuration too large for the budget (or a loaded machine) is explored as far as
+            # the budget allows and reported as incomplete, never as a failure
+            budget = int(os.environ.get("VERIF_MC_BUDGET", "600"))
+            out, st = tlc(module, cfg, workers="auto", timeout=budget + 900, heap="-Xmx12g", stop_after=budget)
+            st["complete"] = st.get("left_on_queue") == 0
             st["wall_s"] = round(time.time() - t0, 1)
             st["cfg"] = cfg
             if not st.get("ok"):
@@ -136,7 +140,8 @@ def model_check(pid, tier, tlc, work, spec, log):
             raise Inconclusive("TLC did not complete cleanly on %s:\n%s" % (cfg, st.get("tail", "")))
         res["distinct"] += st.get("distinct", 0)
         res["generated"] += st.get("generated", 0)
-        res["cfgs"].append({"cfg": cfg, "distinct": st.get("distinct"), "generated": st.get("generated"), "wall_s": st.get("wall_s")})
+        res["cfgs"].append({"cfg": cfg, "distinct": st.get("distinct"), "generated": st.get("generated"), "wall_s": st.get("wall_s"),
+                            "complete": st.get("complete", True), "depth": st.get("depth")})
     return res
 
 
